@@ -249,7 +249,7 @@ def world_focus_conc():
     V = [vote("precommit", 1, 0, {"A1": ok(1, 2)}), vote("precommit", 1, 0, {"A1": ok(2, 3)}), vote("precommit", 1, 0, {"nil": ok(1, 2, 3)}),
          vote("precommit", 1, 1, {"nil": ok(1, 2)}), vote("precommit", 1, 0, {"A1": S([E(3), E(4, "flip")])})]
     w["votes"] = S(V)
-    w["phs"] = S([ph("A1", 0, 1)])
+    w["phs"] = S([ph("A1", 0, 1), ph("A1", 1, 2)])
     w["replays"] = S([])
     w["smentr"] = S([{"h": 1, "r": 0, "pub": 4}])
     w["smvotes"] = S([])
